@@ -10,6 +10,7 @@ package oxsim
 // hash-derived delivery time, delivered by one dispatcher goroutine at quiescent points.
 
 import (
+	"os"
 	"container/heap"
 	"context"
 	"errors"
@@ -76,6 +77,8 @@ func (e *Endpoint) GoID(id string, f func()) {
 }
 
 // ---------------------------------------------------------------- messages
+
+var debugOpens = os.Getenv("OXSIM_DEBUG_OPENS") != ""
 
 type msgKind int
 
@@ -960,9 +963,19 @@ func (c *simConn) NewStream(ctx context.Context, desc *grpc.StreamDesc, method s
 	n := c.src.net
 	n.mu.Lock()
 	key := c.src.Name + ">" + c.target + method
+	if omd, ok := metadata.FromOutgoingContext(ctx); ok {
+		// streams of different shards opened at the same instant keep their identity whatever the
+		// order in which their goroutines got to run
+		if v := omd.Get("shard-id"); len(v) == 1 {
+			key += "/s" + v[0]
+		}
+	}
 	n.streamSeq[key]++
 	id := fmt.Sprintf("%s#%d.%d", key, c.src.Inc, n.streamSeq[key])
 	n.mu.Unlock()
+	if debugOpens {
+		n.r.Logf("open %s by goroutine %x", id, runtime.SimPath())
+	}
 	s := &simStream{net: n, id: id, method: method, client: c.src, daddr: c.target, cctx: ctx,
 		toServer: newFrameQ(), toClient: newFrameQ(), desc: desc}
 	c.src.streams.Store(id, s)
